@@ -291,7 +291,13 @@ func listShape(x *X, depth int, budget *int, top bool) *ref.Block {
 		}
 		if !b.Tight && x.ChooseFree(2) == 1 {
 			*budget--
-			it = append(it, p("tail"))
+			tail := p("tail")
+			if !top && i == n-1 && x.ChooseFree(2) == 1 {
+				// the last block of the last item of a nested loose list may be an
+				// empty fenced code block (two lines that the block parser consumes whole)
+				tail = &ref.Block{Kind: ref.BFenced}
+			}
+			it = append(it, tail)
 		}
 		b.Items = append(b.Items, it)
 	}
